@@ -172,15 +172,17 @@ def race_run(ctx):
     env2["GORACE"] = "halt_on_error=0 log_path=" + os.path.join(rdir, "race")
     rc, log = common.sh([out, "-seed", str(ctx.seed), "-tier", "quick", "-out", rdir], env=env2, timeout=900)
     reports = [f for f in os.listdir(rdir) if f.startswith("race.")]
-    races = []
+    races, other = [], []
     for f in reports:
         txt = open(os.path.join(rdir, f), errors="replace").read()
         for m in re.finditer(r"WARNING: DATA RACE(.*?)(?:==================|$)", txt, re.S):
-            body = m.group(1)
-            # only races that involve forwarder's code (not the harness' own bookkeeping)
-            if "saucelabs/forwarder" in body:
-                races.append(" ".join(body.split())[:600])
-    return {"rc": rc, "races": races[:5], "race_reports": len(races)}
+            body = " ".join(m.group(1).split())
+            # races that involve forwarder's code are reported; races inside the harness' own bookkeeping are only noted
+            (races if "saucelabs/forwarder" in body else other).append(body[:700])
+    note = {"rc": rc, "races": races[:5], "race_reports": len(races), "harness_only_reports": other[:2]}
+    if rc == 66 and not races and not other:
+        note["note"] = "race detector exit status 66 without a report file: " + log[-600:]
+    return note
 
 
 def _count_obligations():
